@@ -190,7 +190,7 @@ PROPS = {
                  "serial). Non-trivial: an accepted delivery that is repeated, reaches the wrong feature, or falls in a concurrent window. Distinct by "
                  "abstract history hash."),
         "assumptions": ["callback identity is the code pointer: distinct function literals model distinct callbacks",
-                        "replies and results always carry a msgCounterReference (without one PrintMessageOverview panics - C05's subject)"],
+                        "a message without msgCounterReference reaches a feature only through HandleMessage (the SHIP path drops it - C05's subject)"],
         "runs": [
             {"name": "callbacks", "run": "TestCallbacks", "kind": "rapid", "checks": {Q: 6000, T: 600000}, "shards": {Q: 4, T: 16}, "steps": 30},
             {"name": "sites", "run": "TestSites", "kind": "plain"},
@@ -442,6 +442,9 @@ _RULE_ADDENDA_6 = {
     "C09": " Delete requests of announced peers may name a foreign device in the client address: they address no binding of the sender and must fail.",
     "C11": " Run remoteusecase: use case data a peer reported (DataCopy of its NodeManagement feature, DeviceRemote.UseCases(), event payloads) against later entity removals / additions, further use case replies and notifications, removals by another peer and the disconnect.",
     "C12": " A drawn subset of the callbacks gives its verdicts from inside the invocation (which lasts until the verdict is due, for a silent callback until the case ends); a third of the writes are filter-less writes of the complete list, most of them repeating the data the feature currently holds; the data at the end must be the initial data with the approved writes applied in some order.",
+    "C10": " Entities also disappear by partial notifications with several entries (removed known / removed unknown / added, any order, with or without device part) and by complete filter-less notifications that omit known entities and may list new ones ([3], [4]); per notification exactly the entries of the entities that disappeared are gone, one remove event per entry and per entity, and a notification that removes nothing changes nothing.",
+    "C14": " A share of the messages is handed to the local feature's exported HandleMessage (built as ProcessCmd builds it), with and without msgCounterReference: without one a message references no request and no callback of either kind may run. A quarter of the callbacks register a follow-up response or result callback from inside their first invocation; every arrival and the goroutine barrier run under the lock watchdog (a handling or callback that never returns is a violation with the dump as evidence).",
+    "C15": " Handler objects of one case are partly or wholly alike in content (distinct pointers, equal fields; identity kept by pointer in a log of the test) in the bus, core-first and levels runs: a subscription is one of the object, not of its content.",
     "C16": " Sequential scenario with a time-out of exactly 2 s (the boundary of the shortening rule).",
     "C17": " Storm restricted-updates-of-many-list-types (runs first): six goroutines apply partial and delete updates to all keyed list functions of all feature types on different local features.",
     "C18": " A quarter of the reply / notify / write cells are built before the function ever got data.",
